@@ -108,6 +108,15 @@ def run():
                 ab.store(ev)
                 ops.append({'op': 'store', 'ev': ev})
             iv2 = len(ops) - 1
+            # always: an event that ends EXACTLY on the last byte of the map file (a multiple of the growth chunk), so that the calls
+            # interrupted next are interrupted - and the store reopened - while the map is full to its last byte
+            from ..absstore import align8
+            fstart = align8(ab.end)
+            ftarget = ((fstart + 152) // 2048 + 1) * 2048
+            full = g.new_event(kind=1, pk=rng.choice(AUTHORS), t=77, tags=[], content=b'F' * (ftarget - fstart - 152))
+            ab.store(full)
+            ops.append({'op': 'store', 'ev': full})
+            ifull = len(ops)          # the op AFTER the filling store
             # always: a vanish that has several targets - events by the key (the replaceable one just stored among them), a gift
             # wrap naming it - so that every kill point between its per-event removals is really visited
             wrap = g.new_event(kind=1059, pk=ID(0xe1), t=300, tags=[[b'p', rpk.hex().encode()]], content=b'wrap')
@@ -122,6 +131,7 @@ def run():
             if Q:
                 special = [i for i, o in enumerate(ops) if o['op'] in ('vanish', 'remove') or (o['op'] == 'store' and o['ev']['kind'] == 5)][:2]
                 special.append(iv2)
+                special.append(ifull)
                 if h % 2 == 0:
                     special.append(len(ops) - 1)
                 ks = sorted(set(special + rng.sample(range(len(ops)), min(2, len(ops)))))
